@@ -80,6 +80,7 @@ Definition set_obj (w : world) (l : nat) (x : list (str * value)) : world := upd
 Definition ret_of (r : vres) (ret : value) : lres := match r with VRaise => LRaise (U "error") | _ => LArgs ret (U "args") end.
 
 Definition int_val (z : Z) : value := VNum (NInt z).
+Definition msg_recursion : str := U "maximum recursion depth exceeded".
 
 Section Lib.
 Variable cfg : config.
@@ -214,7 +215,7 @@ Definition libcore (callback : caller) (name : str) (args : list value) (w : wor
     | VOk [AV a; AV b] =>
       match vcompare (cmp_fuel w) w a b with
       | Some c => (LVal (int_val (match c with Lt => -1 | Eq => 0 | Gt => 1 end)), w)
-      | None => (LFuel, w)
+      | None => (LRaise msg_recursion, w)          (* a value that contains itself: RecursionError inside the library function *)
       end
     | r => (ret_of r VNull, w)
     end
@@ -222,7 +223,7 @@ Definition libcore (callback : caller) (name : str) (args : list value) (w : wor
     match minmax w (if op_is name "mathMax" then Gt else Lt) args None with
     | Some (Some v) => (LVal v, w)
     | Some None => (LVal VNull, w)
-    | None => (LFuel, w)
+    | None => (LRaise msg_recursion, w)
     end
   (* two host functions of the test harness (python callables placed in the globals by the host) *)
   else if op_is name "__hostFirst" then (LVal (nth 0 args VNull), w)
